@@ -13,8 +13,8 @@ PROOF_MODULE = "Nlmodel.Proofs.C05"
 PROOF_FILES = ["Nlmodel/Proofs/C05.lean", "Nlmodel/Proofs/Lemmas/Lexer.lean", "Nlmodel/Proofs/Lemmas/VMErrors.lean",
                "Nlmodel/Model/Lexer.lean", "Nlmodel/Model/Parser.lean", "Nlmodel/Model/VM.lean"]
 THEOREM_FILE = PROOF_FILES[0]
-LEVEL_TEXT = ("Lean theorems: every token consumes at least one character, so tokenizing terminates and the fuel supplied is sufficient (any larger fuel gives the same stream); the token stream is never longer than the text; a step of the machine is a total function and a failing step or run fails with a type, index or argument error only (syntax/reference errors can only come from the front end). The model functions are total by construction (Lean accepts only terminating definitions), with explicit fuel whose sufficiency is proved for the tokenizer (the parser's fuel bound is validated by correspondence: the model never reports FUEL on any explored input). What a model cannot exhibit - native stack exhaustion, allocator failure, wall-clock behaviour - is decided by the direct oracle only: every input is run on the real interpreter under catch_unwind, an instruction budget, an address-space limit and a timeout.")
-LEVEL_NOTE = ("Partial: runtime crashes (stack overflow by deep native recursion, allocation failure) are outside the model; the parser's fuel sufficiency is not yet a theorem. Known finding K6 (native recursion depth) is listed in known_findings.json.")
+LEVEL_TEXT = ("Lean theorems: every token consumes at least one character, so tokenizing terminates and the fuel supplied is sufficient (any larger fuel gives the same stream); the token stream is never longer than the text; a step of the machine is a total function and a failing step or run fails with a type, index or argument error only (syntax/reference errors can only come from the front end). The model functions are total by construction (Lean accepts only terminating definitions), with explicit fuel whose sufficiency is proved for the tokenizer and for the parser (C05_parse_fuel_sufficient: potential 3*tokens + c per function, mutual induction over all seven parser functions); the whole pipeline never answers with the model-only FUEL error (C05_eval_never_fuel). What a model cannot exhibit - native stack exhaustion, allocator failure, wall-clock behaviour - is decided by the direct oracle only: every input is run on the real interpreter under catch_unwind, an instruction budget, an address-space limit and a timeout.")
+LEVEL_NOTE = ("Partial: runtime crashes (stack overflow by deep native recursion, allocation failure) are outside the model; Known finding K6 (native recursion depth) is listed in known_findings.json.")
 TECHNIQUE = "Lean 4 proof (termination/totality, error-kind closure) + crash/hang oracle on the real interpreter over mutated and truncated inputs"
 RULE = ("random token sequences over the vocabulary; token-level edits (delete, duplicate, swap, replace) of generated and example "
         "programs; truncation of well-formed programs at every character offset; Unicode/byte noise; a directed corpus of boundary "
